@@ -54,7 +54,10 @@ def explore(tier, seed, res=None, replay=None):
         df = designs.gen_frame(r)
         formula = f or designs.gen_formula(r, extra=(r.random() < 0.3))
         res.evaluations += 1
-        obs, req = designs.observe(formula, df, designs.NAMES)
+        # a second design from the same formula text on another frame (other rows, other levels
+        # present) is built before this one is inspected
+        other = designs.gen_frame(r, complete=False)
+        obs, req = designs.observe(formula, df, designs.NAMES, disturb=other)
         case = {"formula": formula, "seed_path": path}
         if req is None:
             res.count("impl_error:" + obs["err"])
